@@ -180,7 +180,7 @@ type State struct {
 	timersOn    bool
 	clock       *Term // symbolic clock (nil: timers are driven by SetTimers / FireTimers*)
 	clockVer    int
-	inSelect    bool // readiness is being evaluated for a case of a multi-case select
+	inSelect    bool  // readiness is being evaluated for a case of a multi-case select
 	timerLimit  int64 // with timers on: only time.After channels with a constant duration <= timerLimit fire by themselves (0 = no limit)
 	prov        map[string][]Prov
 	ufArg       map[string]string
